@@ -1071,6 +1071,8 @@ class TorConfig:
                             initial = []
                         else:
                             initial = [default]
+                elif isinstance(v, list):
+                    initial = [self.parsers[rn].parse(x) for x in v]
                 else:
                     initial = [self.parsers[rn].parse(v)]
                 self.config[rn] = _ListWrapper(
